@@ -81,7 +81,10 @@ func (q rangeQuery) String() string {
 }
 
 func (q rangeQuery) CacheKey() uint64 {
-	return hash(q.prom.unsafeURI, q.Endpoint(), q.expr, q.r.Start.Format(time.RFC3339), q.r.End.Round(q.r.Step).Format(time.RFC3339), output.HumanizeDuration(q.r.Step))
+	// Two slices ask the same question iff they evaluate the same points: same start, same step and
+	// the same last point (the last multiple of step that still fits before the end).
+	last := q.r.Start.Add(q.r.End.Sub(q.r.Start).Truncate(q.r.Step))
+	return hash(q.prom.unsafeURI, q.Endpoint(), q.expr, q.r.Start.Format(time.RFC3339), last.Format(time.RFC3339), output.HumanizeDuration(q.r.Step))
 }
 
 func (q rangeQuery) CacheTTL() time.Duration {
